@@ -491,6 +491,10 @@ def run_history(case, check_clauses=True):
         if check_clauses and op[0] == "copy":
             for cl, det in copy_failures(prev, a):
                 fails.append((k, cl, det))
+        if check_clauses and op[0] == "ctor" and op[1].get("from_current"):
+            for cl, det in copy_failures(prev, a):
+                if cl == "a copy shares nothing with its source":
+                    fails.append((k, cl, det))
         flag, vals = observe(a)
         obs.append((flag, [float(x) for x in numpy.array(a._U).reshape(9)], vals, extra))
         lats.append(a.lattice)
